@@ -1347,4 +1347,49 @@ theorem comp_rows_in_decomp :
   decide +kernel
 
 
+/-! ## Part 9: combining classes -/
+
+/-- `(lo, hi, v)` ranges expanded to `(c, v)` per character (`fuel` ≥ the longest range) -/
+def expandRange : Nat → Nat → Nat → Nat → List (Nat × Nat)
+  | 0, _, _, _ => []
+  | fuel + 1, lo, hi, v => if lo ≤ hi then (lo, v) :: expandRange fuel (lo + 1) hi v else []
+
+def expandRanges (t : List (Nat × Nat × Nat)) : List (Nat × Nat) :=
+  t.flatMap (fun r => expandRange (r.2.1 - r.1 + 1) r.1 r.2.1 r.2.2)
+
+def dedupNat : List Nat → List Nat → List Nat
+  | acc, [] => acc.reverse
+  | acc, x :: xs => if acc.contains x then dedupNat acc xs else dedupNat (x :: acc) xs
+
+/-- the canonical combining classes that occur in the crate's data, with their modified class -/
+def classVals : List (Nat × Nat) :=
+  (dedupNat [] (Gen.Norm.cccRanges.map (·.2.2))).filterMap (fun k => (Gen.Norm.mccTab[k]?).map (fun m => (k, m)))
+
+/-- `CharExt::modified_combining_class` as the source defines it: three per-character overrides, else
+    `MODIFIED_COMBINING_CLASS[ccc]` -/
+def mccFromCcc (vals : List (Nat × Nat)) (c k : Nat) : Option Nat :=
+  if c = 0x1A60 ∨ c = 0x0FC6 then some 254 else if c = 0x0F39 then some 127 else lookup vals k
+
+def mccExpected (vals : List (Nat × Nat)) : List (Nat × Nat) → Option (List (Nat × Nat))
+  | [] => some []
+  | (c, k) :: r =>
+    match mccFromCcc vals c k, mccExpected vals r with
+    | some m, some rest => some (if m = 0 then rest else (c, m) :: rest)
+    | _, _ => none
+
+
+set_option maxRecDepth 100000 in
+theorem mcc_from_ccc_check :
+    mccExpected classVals (expandRanges Gen.Norm.cccRanges) = some (expandRanges Gen.Norm.mccRanges) := by
+  decide +kernel
+
+set_option maxRecDepth 100000 in
+theorem classVals_inj_check :
+    classVals.all (fun p => classVals.all (fun q => p.1 == q.1 || p.2 != q.2 || p.2 == 0)) = true := by
+  decide +kernel
+
+set_option maxRecDepth 100000 in
+theorem classVals_zero_check : classVals.all (fun p => p.2 != 0 || p.1 == 84 || p.1 == 91) = true := by
+  decide +kernel
+
 end RbModel.Norm
